@@ -8,6 +8,8 @@ PROP = dict(
     level_note="Bounded (1-2 workers, 1-3 traces, <=3 spans, horizon of a few SendTicker ticks; one model tick = one SendTicker period). Worker steps are atomic in the transition-tour binding (hook-event barrier after each step; sender drained), so only sequential schedules are forced here; really concurrent schedules are covered by the recorded-trace stage where present. Decision memory is sized so nothing is evicted (eviction is C31's subject). Sampler = real DeterministicSampler with trace IDs chosen by hash to realise the model's verdicts. Trusted: clockwork fake clock, the harness's recording Transmission, the guarded hooks (collect/verif_on.go).",
     assumptions=["stable membership, no stress toggling while buffered (as the property states)", "decision memory large enough that nothing is evicted", "bounded model: see level_note"],
     stages=[dict(kind="walk", name="core", module="MCCollectorCore", pkg="collect", test="TestVerifCollector", harness=["collect/collector_test.go"], cfg={"quick": "MC_Collector_core_q.cfg", "thorough": "MC_Collector_core.cfg"}, budget={"quick": 45, "thorough": 600}, maxwalk=40),
+            dict(kind="gotest", name="backpressure", pkg="collect", test="TestVerifBackpressure", harness=["collect/collector_test.go", "collect/backpressure_test.go"],
+                 budget={"quick": 60, "thorough": 60}),
             dict(kind="trace", name="concurrent", module="TraceCollector", cfg="TraceCollector.cfg", pkg="collect", test="TestVerifCollectorTrace",
                  harness=["collect/collector_test.go", "collect/collector_trace_test.go"], race=True, budget={"quick": 15, "thorough": 120})],
 )
